@@ -36,9 +36,9 @@ Theorem C12_pool_accounting : forall fa c cs u u' acc,
   u' = u + sum_f acc /\ u' - c <= fused_to_plasma fa /\ c <= u'.
 Proof. exact pool_accounting. Qed.
 
-Theorem C12_pow_plasma_bounded_monotone : forall d1 d2, 0 <= d1 <= d2 ->
+Theorem C12_pow_plasma_bounded_monotone : forall d1 d2, 0 <= d1 <= d2 -> d2 < two64 ->
   0 <= difficulty_to_plasma d1 <= difficulty_to_plasma d2 /\ difficulty_to_plasma d2 <= MaxPoWPlasmaForAccountBlock.
-Proof. intros d1 d2 H. pose proof (d2p_bound d1). pose proof (d2p_bound d2). pose proof (d2p_monotone d1 d2 H). lia. Qed.
+Proof. exact d2p_bounded_monotone. Qed.
 
 Theorem C12_no_internal_error : forall fa c u base f d,
   0 <= c <= u -> u - c <= fused_to_plasma fa -> enough_plasma fa c u base f d <> PPanic.
